@@ -82,7 +82,7 @@ func invKind(inv *Invocation) string {
 func c09Units(tier string, seed int64) []Unit {
 	quick := tier != "thorough"
 	var units []Unit
-	alpha := func(ctx string) []Beh { return []Beh{BPass, BSkip, BFatalA} }
+	alpha := func(ctx string) []Beh { return []Beh{BPass, BSkip, BFatalA, BCleanupErrorfSkip, BCleanupSkip} }
 	type scen struct {
 		n      int
 		base   Beh
@@ -91,23 +91,26 @@ func c09Units(tier string, seed int64) []Unit {
 		files  []string
 	}
 	var scens []scen
-	for _, n := range []int{1, 2, 3} {
-		md := 1000
-		if quick && n == 3 {
-			md = 4
+	if quick {
+		scens = append(scens,
+			scen{n: 1, base: BPass, maxDev: 1000, p: 13},
+			scen{n: 2, base: BPass, maxDev: 3, p: 24},
+			scen{n: 3, base: BPass, maxDev: 2, p: 35},
+			scen{n: 5, base: BPass, maxDev: 2, p: 57}, scen{n: 5, base: BSkip, maxDev: 1, p: 57},
+			scen{n: 10, base: BPass, maxDev: 1, p: 112}, scen{n: 10, base: BSkip, maxDev: 1, p: 112},
+			scen{n: 100, base: BPass, maxDev: 1, p: 1102}, scen{n: 100, base: BSkip, maxDev: 0, p: 1102})
+	} else {
+		for _, n := range []int{1, 2, 3} {
+			scens = append(scens, scen{n: n, base: BPass, maxDev: 1000, p: 11*n + 2})
 		}
-		scens = append(scens, scen{n: n, base: BPass, maxDev: md, p: 11*n + 2})
-	}
-	for _, n := range []int{5, 10, 100} {
-		d := 2
-		if !quick {
-			d = 3
+		for _, n := range []int{5, 10, 100} {
+			d := 3
+			if n == 100 {
+				d = 2
+			}
+			scens = append(scens, scen{n: n, base: BPass, maxDev: d, p: 11*n + 2})
+			scens = append(scens, scen{n: n, base: BSkip, maxDev: d - 1, p: 11*n + 2})
 		}
-		if n == 100 && quick {
-			d = 1
-		}
-		scens = append(scens, scen{n: n, base: BPass, maxDev: d, p: 11*n + 2})
-		scens = append(scens, scen{n: n, base: BSkip, maxDev: d, p: 11*n + 2})
 	}
 	fileKinds := [][]string{{"pass"}, {"skip"}, {"fail"}, {"garbage"}, {"oldversion"}, {"empty"}, {"pass", "fail"}, {"garbage", "pass"}, {"skip", "skip"}, {"fail", "pass"}, {"oldversion", "fail"}}
 	for _, fk := range fileKinds {
@@ -175,7 +178,7 @@ func c09Units(tier string, seed int64) []Unit {
 				}
 				d := &LazyDFS{Prog: prog, Cfg: cfg, Alphabet: alpha, P: sc.p, MaxDev: sc.maxDev, PreRun: mkFiles, OnlyUpToFirstFalsified: true}
 				if quick {
-					d.MaxRuns = 6000
+					d.MaxRuns = 20000
 				} else {
 					d.MaxRuns = 200000
 				}
